@@ -13,6 +13,10 @@ package main
 // a failure is attributable; the finding key is that class (plus the oracle
 // clause when the failing clause is not the one the class is about).
 //
+// How the given paths are SPELLED ('.', '..', 'x/..', trailing slashes, relative,
+// through links, '/') in combination with base-name collisions is driven by
+// c13_spell.go in child processes (classes "spell:*"), with the oracle of this file.
+//
 // Cases the oracle accepts and that consist of plain entries only are then
 // taken through a HISTORY (c13_history.go): the one scanned manifest serves
 // k >= 2 real transfers and must stay the manifest that was scanned and
@@ -963,6 +967,11 @@ func c13Check(c c13Case, base, cwd string) c13Result {
 	rootSet := map[string]bool{}
 	for _, rt := range roots {
 		rootSet[rt] = true
+		// the same directory named without the links on the way to it is the
+		// same source (a resolver may canonicalise)
+		if real, rerr := filepath.EvalSymlinks(rt); rerr == nil {
+			rootSet[real] = true
+		}
 	}
 	topRoot := map[string]string{}
 	for _, it := range m.Items {
@@ -1158,6 +1167,10 @@ func runC13(e *Env) {
 		"path and its subdirectory / trailing slashes / dot segments / '.' and relative paths / FIFO / socket / char device / symlinks to file, directory, nothing, a loop, " +
 		"in the tree or as the given path / a path literally named like an ordinal prefix); real ScanPaths+buildPathResolver (or Scan + root join) vs an independent " +
 		"ReadDir+Lstat walk; a case counts when scan, resolver lookups of every item and the walk completed on a non-rejected path list; distinct by (class, mode, tree, path list). " +
+		"Spelled paths (classes spell:*, child processes with their own working directory and $PWD, or a chroot): one hosted directory typed as . ./ ./. .. ../ S/.. N/. N/ ./N ../N, " +
+		"absolute with trailing slashes or dot segments, below a symlinked parent, as '.' in a directory entered through a link, as / . // in a chroot - each spelling round-robin, " +
+		"three rounds of four together with 1..3 other given paths that carry the base name the spelled path denotes (any order, themselves absolute / relative / with trailing slash), " +
+		"one round with differently named partners; same oracle; a spelling counts when a case with generated ordinal prefixes and a case without completed. " +
 		"History stage: a hash-selected subset of the clean plain-entry cases is scanned once as the host does and that one manifest value is used for 2..3 real " +
 		"SendManifestMultiStream/RecvManifestMultiStream transfers (next receiver / resume reconnect into the same directory / concurrent receivers; mock or loopback QUIC); " +
 		"after every use: held manifest deep-equal to a pristine copy and to the announced id, manifest read by the receiver equal to it, output tree equal to the source; " +
